@@ -16,23 +16,24 @@ import (
 // Engine symbolically executes one harness. A fresh Engine (and smt.Ctx) is used per harness.
 type Engine struct {
 	scalarObjs []*smt.Term // bases of the single (non-array) objects allocated so far
-	C  *smt.Ctx
-	M  *memCtx
-	ly *layouts
-	pl *places
-	W  *World
+	C          *smt.Ctx
+	M          *memCtx
+	ly         *layouts
+	pl         *places
+	W          *World
 
 	initMem  map[string]*MemNode
 	axioms   []*smt.Term
 	axiomSet map[int]bool
 
-	closures map[uint64]*closure
-	nextFn   uint64
-	tagOf    map[string]uint64
-	typeOf   map[uint64]types.Type
-	globals  map[*ssa.Global]uint64
-	strLits  map[string]Value
-	boxes    int
+	closures   map[uint64]*closure
+	nextFn     uint64
+	tagOf      map[string]uint64
+	typeOf     map[uint64]types.Type
+	globals    map[*ssa.Global]uint64
+	strLits    map[string]Value
+	litBridged map[string]bool // literals whose strid(base,off,len) = literal id axiom was emitted
+	boxes      int
 
 	harness       *Harness
 	obls          []*Obligation
